@@ -416,7 +416,13 @@ def mangle_file_for_iso9660(orig, iso_level):
 
     # All right, now we have the basename of the file, and (optionally) an
     # extension.
-    return truncate_basename(basename, iso_level, False), valid_ext + ';1'
+    valid_base = truncate_basename(basename, iso_level, False)
+    if iso_level != 1:
+        # In levels 2 and 3 the limit of 30 applies to the length of the
+        # filename and of the extension together.
+        valid_base = valid_base[:30 - len(valid_ext)]
+
+    return valid_base, valid_ext + ';1'
 
 
 def mangle_dir_for_iso9660(orig, iso_level):
